@@ -363,6 +363,82 @@ def cmp_lines_real(rng, n):
     return lines
 
 
+def word_prefix_cmp_lines(rng, n):
+    """comparison operands that agree on every word the shorter one stores and differ only above it: significands at the
+    minimum exponent of multi-word formats (a small subnormal against the same low words plus high bits), both orders and signs"""
+    lines = []
+    fm = [(11, 65), (11, 128), (11, 129), (11, 200), (15, 113), (15, 237), (12, 300), (10, 120), (19, 237), (8, 70)]
+    for _ in range(n):
+        E, P = rng.choice(fm)
+        s = Sem(E, P, rng.choice(MODES))
+        words = (P + 63) // 64
+        k = rng.randrange(1, words)                       # the short operand keeps k words
+        low = rng.getrandbits(64 * k) | 1
+        if rng.randrange(3) == 0:
+            low = rng.choice([1, 2 ** (64 * k) - 1, 2 ** (64 * k - 1), rng.getrandbits(64) | 1])
+        room = P - 64 * k
+        high = rng.randrange(1, 2 ** room) if room > 0 else 1
+        if rng.randrange(3) == 0:
+            high = rng.choice([1, 2 ** (room - 1), 2 ** room - 1])
+        big = low + (high << (64 * k))
+        if big >= 2 ** P:
+            continue
+        sa, sb = rng.randrange(2), rng.randrange(2)
+        if rng.randrange(3):
+            sb = sa
+        a, b = ftok("N", sa, s.emin, low), ftok("N", sb, s.emin, big)
+        if rng.randrange(2):
+            a, b = b, a
+        lines.append("cmp %s %s %s" % (s, a, b))
+    return lines
+
+
+def big_prefix_cmp_lines(rng, n):
+    """BigInt comparison of operands of different stored lengths that agree on the common words (with and without leading zero words)"""
+    lines = []
+    for _ in range(n):
+        k = rng.randrange(1, 6)
+        low = rng.getrandbits(64 * k)
+        ext = rng.randrange(1, 4)
+        high = rng.choice([0, 1, rng.getrandbits(64 * ext) | 1, 2 ** (64 * ext) - 1])
+        big = low + (high << (64 * k))
+        a = "%x/%d" % (low, k + rng.choice([0, 0, 1]))
+        b = "%x/%d" % (big, k + ext + rng.choice([0, 1]))
+        if rng.randrange(2):
+            a, b = b, a
+        lines.append("big cmp %s %s" % (a, b))
+    return lines
+
+
+def rm_mismatch_lines(rng, n, ops=("add", "sub", "mul", "div")):
+    """the explicit-mode entry points called with a mode different from the format's own mode (both operands carry the same
+    format): exhaustive over the finite values and zeros of (3,3) for add/sub, random pairs of real formats otherwise"""
+    lines = []
+    for m1 in MODES:
+        s = Sem(3, 3, m1)
+        vals = finite_and_zero(s)
+        for m2 in MODES:
+            if m2 == m1:
+                continue
+            for op in ops:
+                if op in ("mul", "div") and (m1, m2) not in (("E", "N"), ("N", "E"), ("Z", "P"), ("P", "O")):
+                    continue
+                for a in vals:
+                    for b in vals:
+                        lines.append("%s %s %s %s %s" % (op, s, m2, a, b))
+    for _ in range(n):
+        E, P = rand_format(rng)
+        m1 = rng.choice(MODES)
+        m2 = rng.choice([m for m in MODES if m != m1])
+        s = Sem(E, P, m1)
+        a, b = rand_pair(rng, s)
+        if rng.randrange(4) == 0:   # exactly cancelling pair / zeros of unlike sign
+            c, sg, e, mt = parse_tok(a)
+            b = ftok(c, sg if rng.randrange(2) else 1 - sg, e, mt) if c == "N" else rng.choice(SPECIALS[:2])
+        lines.append("%s %s %s %s %s" % (rng.choice(ops), s, m2, a, b))
+    return lines
+
+
 def int_lines(rng, n):
     lines = []
     ints = [0, 1, 2, 3, 2 ** 63 - 1, 2 ** 63, 2 ** 63 + 1, 2 ** 64 - 1, 2 ** 64 - 2, 2 ** 53, 2 ** 53 + 1, 2 ** 24 + 1, 65519, 65520, 2047, 2049]
@@ -949,6 +1025,57 @@ def frac_lines(rng, n):
         else:
             a = rand_arg(rng, s, -3, 8)
         lines.append("frac %s %d %s" % (s, rng.randrange(0, 17), a))
+    return lines
+
+
+def frac_structured_lines(rng, n):
+    """values built FROM a chosen continued fraction [a0; a1, ..., ak] and rounded to the format, so that the property's
+    hypothesis (n+2 terms, Q^2*ulp <= 2^-8) holds by construction: partial quotients of every size up to the precision allows
+    (in particular 2^(p-1-64j), where the integer part of an iterate ends on a word boundary), values below one, deep
+    subnormals, and formats whose exponent width equals the bit length of the precision (the widening rule's boundary)"""
+    from fractions import Fraction
+    lines = []
+    fm = [(8, 24), (11, 53), (15, 64), (15, 113), (10, 120), (19, 237), (6, 53), (6, 43), (7, 100), (5, 20), (4, 12), (8, 130), (7, 64)]
+    tries = 0
+    while len(lines) < n and tries < 40 * n:
+        tries += 1
+        E, P = rng.choice(fm)
+        s = Sem(E, P, rng.choice(["E", "E", "A", "Z", "P", "N", "O"]))
+        nq = rng.randrange(1, 7)
+        budget = P - 10            # bits available for Q^2 (ulp of a value in [1,2) is 2^-(p-1))
+        qs = []
+        # sizes of a1.. so that the denominator stays within the budget
+        big_at = rng.randrange(0, nq + 2)
+        for i in range(nq + 2):
+            if i == big_at and rng.randrange(2):
+                j = rng.randrange(1, max(2, P // 64 + 1))
+                b = max(1, P - 1 - 64 * j + rng.choice([-1, 0, 0, 0, 1]))
+                b = min(b, max(1, budget // 2 - 2)) if i > 0 else min(b, P - 12)
+                qv = rng.getrandbits(b) | (1 << (b - 1)) if b > 0 else 1
+            else:
+                qv = rng.choice([1, 1, 2, 3, rng.randrange(1, 20), rng.randrange(1, 1000)])
+            qs.append(max(1, qv))
+        if rng.randrange(3) == 0:
+            qs[0] = 0               # value below one
+        v = Fraction(qs[-1])
+        for qv in reversed(qs[:-1]):
+            v = qv + 1 / v
+        if v <= 0:
+            continue
+        sub = rng.randrange(6) == 0
+        if sub:                     # push the value into the subnormal range (a0 = 0, a1 huge)
+            shift = rng.randrange(1, max(2, P - 12))
+            v = v / Fraction(2) ** (-(s.emin) + shift + 2)
+        e = v.numerator.bit_length() - v.denominator.bit_length()
+        if Fraction(2) ** e > v:
+            e -= 1
+        if e > s.emax or e < s.emin - (P - 1) + 12:
+            continue
+        ee = max(e, s.emin)
+        m = int(v / Fraction(2) ** (ee - (P - 1)))
+        if m == 0 or m >= 2 ** P:
+            continue
+        lines.append("frac %s %d %s" % (s, rng.randrange(0, nq + 1), ftok("N", rng.randrange(2), ee, m)))
     return lines
 
 
